@@ -1,5 +1,110 @@
 import GT.Base.JsonQ
-open Lean GT.J
+import GT.Base.QSqrt
+import GT.Model.Isometry
+import GT.Model.LinAlgQ
+open Lean GT.J GT Matrix GT.Iso GT.LinAlgQ
 namespace GT.Driver.C02
-def ops : List (String × Handler) := []
+
+/-- square rational matrix of any size with its dimension -/
+def sqMat (j : Json) (k : String) : R ((p : ℕ) × Matrix (Fin p) (Fin p) ℚ) := do
+  let a ← qArr2 (← field j k)
+  let p := a.size
+  let M ← mat p p (.arr (a.map ofQArr))
+  return ⟨p, M⟩
+
+/-- answer with a materialised matrix (`DMat` is a structure: evaluated once, strictly) -/
+def ofD {p q : ℕ} (M : DMat p q ℚ) : Json := ofQArr2 M.a
+
+/-- `Isometry.standard_rotation(angle, dimension)` with `(c,s)=(cos,sin)` supplied -/
+def rotationOp (j : Json) : R Json := do
+  let dim ← natf j "dim"
+  let c ← qf j "c"
+  let s ← qf j "s"
+  match dim with
+  | 0 | 1 => throw "ValueError"
+  | m + 2 => return ofMat (rotation (m := m) c s)
+
+/-- `Isometry.elliptic(n, O, column_vectors)` -/
+def ellipticOp (j : Json) : R Json := do
+  let ⟨_, O⟩ ← sqMat j "O"
+  let cv ← boolf j "column_vectors"
+  return ofMat (if cv then elliptic O else ellipticRow O)
+
+/-- `Isometry.standard_loxodromic(dim, u)` -/
+def loxodromicOp (j : Json) : R Json := do
+  let dim ← natf j "dim"
+  let u ← qf j "u"
+  if u = 0 then throw "DivZero"
+  match dim with
+  | 0 => throw "ValueError"
+  | m + 1 =>
+    let T := DMat.ofMatrix (loxB (m := m) * loxDiag u)
+    return ofD (DMat.ofMatrix (T.toMatrix * loxBinv)ᵀ)
+
+/-- `hyperbolic.sl2_iso(A)` -/
+def sl2Op (j : Json) : R Json := do
+  let A ← matf 2 2 j "A"
+  let A3 := DMat.ofMatrix (sl2Irrep3 A)
+  let L := DMat.ofMatrix (perm210 * killingConj * A3.toMatrix)
+  return ofD (DMat.ofMatrix (L.toMatrix * killingConjInv * perm210)ᵀ)
+
+/-- `Subspace.reflection_across` from hyperplane data `D` (inverse certified: `certInv_spec`) -/
+def reflectOp (j : Json) : R Json := do
+  match (← sqMat j "D") with
+  | ⟨0, _⟩ => throw "empty"
+  | ⟨n + 1, D⟩ =>
+    match certInv D with
+    | none => throw "Singular"
+    | some Di =>
+      let T := DMat.ofMatrix (Di * minkJ n)
+      return ofD (DMat.ofMatrix (T.toMatrix * D))
+
+/-- closed-form reflection in the normal `d` -/
+def reflClosedOp (j : Json) : R Json := do
+  let a ← qArr (← field j "d")
+  match a.size with
+  | 0 => throw "empty"
+  | n + 1 =>
+    let d ← vec (n + 1) (.arr (a.map ofQ))
+    if mink d d = 0 then throw "DivZero"
+    return ofMat (reflClosed d)
+
+/-- `l₁ @ l₂ @ … @ l_k`; letters `{"m": matrix, "inv": bool}`; `.inv()` certified -/
+def wordOp (j : Json) : R Json := do
+  let p ← natf j "size"
+  let ls ← arr (← field j "letters")
+  let mut ms : List (DMat p p ℚ) := []
+  for l in ls do
+    let M ← matf p p l "m"
+    let iv ← boolf l "inv"
+    if iv then
+      match certInv M with
+      | none => throw "Singular"
+      | some B => ms := DMat.ofMatrix B :: ms
+    else ms := DMat.ofMatrix M :: ms
+  return ofD (evalWordD ms.reverse)
+
+/-- `‖M J Mᵀ − J‖∞` exactly -/
+def residualOp (j : Json) : R Json := do
+  match (← sqMat j "M") with
+  | ⟨0, _⟩ => throw "empty"
+  | ⟨_ + 1, M⟩ => return ofQ (isoResidual M)
+
+/-- `x ↦ xM` and the three Minkowski products needed for distance / type preservation -/
+def applyOp (j : Json) : R Json := do
+  match (← sqMat j "M") with
+  | ⟨0, _⟩ => throw "empty"
+  | ⟨n + 1, M⟩ =>
+    let x ← vecf (n + 1) j "x"
+    let y ← vecf (n + 1) j "y"
+    let xm := (DVec.ofFn (applyRow M x)).toFn
+    let ym := (DVec.ofFn (applyRow M y)).toFn
+    return Json.mkObj [("xM", ofVec xm), ("yM", ofVec ym),
+      ("before", ofQArr #[mink x x, mink y y, mink x y]),
+      ("after", ofQArr #[mink xm xm, mink ym ym, mink xm ym])]
+
+def ops : List (String × Handler) :=
+  [("c02.rotation", rotationOp), ("c02.elliptic", ellipticOp), ("c02.loxodromic", loxodromicOp),
+   ("c02.sl2", sl2Op), ("c02.reflect", reflectOp), ("c02.refl_closed", reflClosedOp),
+   ("c02.word", wordOp), ("c02.residual", residualOp), ("c02.apply", applyOp)]
 end GT.Driver.C02
